@@ -245,16 +245,24 @@ theorem simplify_sstep (o : Opts) (e : Expr) (he : WF e) (hq : Plain e) (hopt : 
     have hplain := restruct_pres Plain Plain_mkCst (fun e he => Plain_isDef he) size parts' hd' h1 s1
     have hbits : ∀ j, tbit ρ (restruct parts') j = (ideal ρ (comp size sf parts)).testBit j := by
       intro j; rw [t1 j, s2 j, ideal_comp_testBit ρ _ _ _ ht.disj]
-    split
-    · rename_i p hf
+    have hkey : ∀ p, findKey 0 size (restruct parts') = some p →
+        Plain p ∧ ideal ρ p = ideal ρ (comp size sf parts) := by
+      intro p hf
       have hm := findKey_some_mem hf
-      refine SPost_pure (hplain _ hm) ?_
+      refine ⟨hplain _ hm, ?_⟩
       apply Nat.eq_of_testBit_eq; intro j
       rw [← hbits j]
       by_cases hj : j < size
       · rw [tbit_of_mem ρ htr.disj hm ⟨Nat.zero_le _, hj⟩]; rfl
       · rw [tbit_uncovered ρ (cnt_zero_of_sized htr.1 (by omega))]
         exact testBit_of_lt _ _ _ (ideal_lt ρ p (r2 _ hm)) (by rw [htr.whole_key hf]; omega)
+    split
+    · rename_i v s f hf
+      have := hkey _ hf
+      exact SPost_pure (by simp [Plain]) (by rw [← this.2]; simp only [ideal])
+    · rename_i p _ hf
+      have := hkey _ hf
+      exact SPost_pure this.1 this.2
     · refine SPost_pure (by simp only [Plain]; exact (plainParts_iff _).mpr hplain) ?_
       apply Nat.eq_of_testBit_eq; intro j
       rw [ideal_comp_testBit ρ _ _ _ htr.disj, hbits j]
